@@ -441,7 +441,7 @@ func VPH_scan() {
 	}
 	want[vpiRefs] = uint64(nrefs)
 	want[vpiPDepth] = 1
-	want[vpiPLen] = 2
+	want[vpiPLen] = 3 // the longer of the two entry names
 	want[vpiXTrees] = 1
 	want[vpiXBlobs] = 2
 	want[vpiXBytes] = uint64(s0) + uint64(s1)
